@@ -597,6 +597,15 @@ Qed.
 
 End History.
 
+Lemma lsurvivors_keyed {R} (ign : R -> option K) (key : V -> K) (ldef : R -> option V) rows :
+  map (fun x => (key x, x)) (lsurvivors ign key ldef rows) = survivors ign (keyed key ldef) rows.
+Proof.
+  induction rows as [|r rest IH]; [reflexivity|]. cbn [lsurvivors survivors].
+  destruct (ign r); [exact IH|]. unfold keyed at 1. destruct (ldef r) as [x|]; cbn [option_map]; [|exact IH].
+  destruct (forgotten_in ign rest (key x)); [exact IH|]. cbn [map]. rewrite IH. reflexivity.
+Qed.
+
+
 (* two dictionaries with the same keys (no duplicates) and the same lookups are equal *)
 Lemma odict_ext (d1 d2 : odict) :
   okeys d1 = okeys d2 -> NoDup (okeys d1) -> (forall k, oget d1 k = oget d2 k) -> d1 = d2.
